@@ -55,7 +55,8 @@ CALL = st.tuples(st.lists(ARG, max_size=2), st.lists(st.tuples(st.sampled_from([
 
 @st.composite
 def histories(draw, kind, tier):
-    maxsize = draw(st.sampled_from(["bare", "cache", None, -1, 0, 1, 2, 3, 4, 5, 128, 1, 2, 3, 2]))
+    # "direct": the function is passed as first argument together with typed (lru_cache(fn, typed=...))
+    maxsize = draw(st.sampled_from(["bare", "cache", "direct", None, -1, 0, 1, 2, 3, 4, 5, 128, 1, 2, 3, 2]))
     typed = draw(st.booleans()) if maxsize not in ("bare", "cache") else False
     # a small pool of call patterns per history makes hits, evictions and equal-but-not-identical
     # patterns frequent; patterns outside the pool still occur
@@ -150,6 +151,10 @@ def build_targets(case):
         adeco, sdeco, norm = a.lru_cache, functools.lru_cache, 128
     elif maxsize == "cache":
         adeco, sdeco, norm = a.cache, functools.cache, None
+    elif maxsize == "direct":
+        adeco = lambda fn: a.lru_cache(fn, typed=typed)  # noqa: E731
+        sdeco = lambda fn: functools.lru_cache(fn, typed=typed)  # noqa: E731
+        norm = 128
     else:
         adeco = a.lru_cache(maxsize=maxsize, typed=typed)
         sdeco = functools.lru_cache(maxsize=maxsize, typed=typed)
